@@ -89,10 +89,12 @@ struct Hist {
     J.line(o.str());
   }
   void show_all() { for (int s = 0; s < 4; ++s) show(s); }
-  void check_ok(int s) {
+  bool was_bad[4] = {false, false, false, false};
+  void check_ok(int s) {      // reported on the transition good -> bad only
     if (!live(s)) return;
     bool ok = slot[s]->OK();
-    if (!ok) { OS o; o << "notok " << s; J.line(o.str()); }
+    if (!ok && !was_bad[s]) { OS o; o << "notok " << s; J.line(o.str()); }
+    was_bad[s] = !ok;
   }
   // generators of every disjunct of a copy (hint for the hull; polyhedra only)
   void hint_gens(int s) {
@@ -203,7 +205,8 @@ struct Hist {
         o << (mx ? "max" : "min"); put_expr(o, e, n);
         if (!ok) o << " none"; else o << " " << num << " " << den << " " << incl; break; }
       case 15: case 16: { Constraint c = dom_con<PSET>(r, n);
-        if (!T::nnc && c.is_strict_inequality()) { o << "size " << P.size(); break; }
+        // base-level relation_with of boxes / BD shapes is not exact (and belongs to C03): polyhedra only
+        if (!T::poly || (!T::nnc && c.is_strict_inequality())) { o << "size " << P.size(); break; }
         Poly_Con_Relation rel = P.relation_with(c);
         o << "relcon"; put_con(o, c, n);
         o << " " << rel.implies(Poly_Con_Relation::is_disjoint()) << " " << rel.implies(Poly_Con_Relation::strictly_intersects())
@@ -297,13 +300,15 @@ struct Hist {
         int d = r.below(4); if (d == s) return;
         o << "copy " << d << " " << s; J.line(o.str());
         if (live(d) && r.chance(1, 2)) *slot[d] = P; else slot[d].reset(new PS(P));
+        was_bad[d] = was_bad[s];
         other = d; break; }
       case 36: { int d = pick_live(); if (d == s) return;
         o << "swap " << s << " " << d; J.line(o.str());
         if (r.chance(1, 2)) P.m_swap(*slot[d]); else swap(P, *slot[d]);
+        std::swap(was_bad[s], was_bad[d]);
         other = d; break; }
       case 37: { unsigned m = 1 + r.below(3);
-        if (T::poly) { P.omega_reduce(); hint_gens(s); }
+        if (T::poly) { OS o1; o1 << "op " << s << " omega_reduce"; J.line(o1.str()); P.omega_reduce(); show(s); hint_gens(s); }
         o << "op " << s << " collapse_max " << m; J.line(o.str());
         // collapse(unsigned) is protected in Powerset: reach it through BGP99-free public path
         struct Open : PS { void collapse_to(unsigned k) { this->collapse(k); } };
